@@ -56,6 +56,13 @@ class C10(CheckBase):
 
     def gen_case(self, rng, tier, index):
         small = rng.chance(0.35)
+        if index % 150 == 3:
+            # the largest image there is: an MMB with all 511 slots (the last one populated), 104,660,992 bytes
+            s = dd.gen_surface(rng, variant='acorn', geom=(80, 10), img_id=3, side=0)
+            image = {'ext': 'mmb', 'surfaces': [s.to_json()], 'slots': {'510': [0x0F, 0], '0': [0xF0, None]}, 'full': True}
+            cmd = rng.choice([['show-titles', '1020'], ['cat', '1020'], ['dump-sector', '1020', '79', '9'], ['info', ':1020.*.*']])
+            return {'image': image, 'gz': {'level': 1}, 'cmd': cmd, 'globals': [], 'fault': 'none', 'frac': 0, 'edge': None, 'bit': 0,
+                    'errno': 'EIO', 'chunk': {'seed': 1, 'max': 512}, 'notgzip': 'raw'}
         if small:
             # a tiny image: a 2-sector or few-sector catalogue-only disc compresses to well under 1 KiB
             s = dd.gen_surface(rng, variant='acorn', geom=rng.choice([(40, 10), (80, 10)]))
@@ -111,7 +118,8 @@ class C10(CheckBase):
         f['out'] = None
         sb.reset(f)
         argv = ['dfs', '--file', name] + case['globals'] + case['cmd']
-        r = ctx.sk.run(sb, ctx.exe('rel', 'dfs'), argv, faults=faults, steps=steps, wall_ms=60000 if steps > 200000 else 5000)
+        big = any(len(v) > 50000000 for v in files.values() if isinstance(v, (bytes, bytearray)))
+        r = ctx.sk.run(sb, ctx.exe('rel', 'dfs'), argv, faults=faults, steps=steps if not big else 2000000, wall_ms=(60000 if steps > 200000 else 5000) if not big else 120000)
         out.add_run(r, ref=ref)
         r['snapshot'] = sb.snapshot('out')
         return r
